@@ -14,7 +14,7 @@ RULE = ("one evaluation = one (corpus, filter) pair run through the real Project
         "on disk; corpora of 0-6 jobs (state point keys a, b, nested n.x/n.y; documents absent / empty / keys "
         "a, d, nested m.x) over ints, int-valued floats (incl. -1.0/-2.0), other floats, bools, None, strings, "
         "lists (incl. nested lists and mappings inside lists), sub-mappings, empty mappings, missing keys; "
-        "filters: the whole atom table (11 key spellings x 151 operator/argument pairs, each in one of four "
+        "filters: the whole atom table (15 key spellings, incl. keys that merely begin with the letters sp/doc, x 151 operator/argument pairs, each in one of four "
         "spellings) + logical small-scope combinations over both namespaces + seeded random filters to depth 3 "
         "+ a malformed stream; distinct = distinct (corpus, filter) JSON; non-trivial = at least one job and a "
         "non-empty filter")
@@ -48,7 +48,8 @@ def _logical_small_scope(rng, n):
     """$and/$or/$not over a reduced atom set, both namespaces, also next to plain atoms"""
     base = [{"a": 1}, {"a": {"$gt": 0}}, {"b": {"$exists": False}}, {"doc.d": 1}, {"doc.a": {"$ne": "a"}},
             {"n.x": {"$in": [1, "a"]}}, {"doc.m.x": {"$exists": True}}, {"a": {"$type": "int"}}, {"b": "a"},
-            {"doc.d": {"$lt": 2}}, {"sp.a": True}, {"doc": {"d": {"$gte": 0}}}, {}]
+            {"doc.d": {"$lt": 2}}, {"sp.a": True}, {"doc": {"d": {"$gte": 0}}}, {}, {"spin": {"$exists": True}},
+            {"docs": {"$ne": 1}}, {"doc.spin": {"$exists": False}}]
     out = []
     for _ in range(n):
         k = rng.random()
